@@ -216,6 +216,36 @@ def candsDistinct (cands : List (Cand K)) : Bool :=
 def fusionInvariant (ops : Array (Op K)) (inputs : List Nat) : Bool :=
   candsDistinct ((Fusion.new ops inputs).candidates ops)
 
+/-- Operand occurrences of an op (what `scan_use_counts` counts). -/
+def opReads : Op K → List Nat
+  | .alu k a b c _ io =>
+    [a, b] ++ c.toList ++ (match k, io with
+      | .horner, some acc => [acc]
+      | _, _ => [])
+  | .hint ins _ _ => ins
+  | .npo ins _ _ _ => ins.flatten
+  | _ => []
+
+/-- Slots an op writes (what `scan_defs` counts in `writer_counts`, backwards records apart). -/
+def opWrites : Op K → List Nat
+  | .const out _ => [out]
+  | .pub out _ => [out]
+  | .alu _ _ _ _ out _ => [out]
+  | .hint _ outs _ => outs
+  | .npo _ outs _ _ => outs.flatten
+
+/-- "The first operand of every plain `Add` is a private input or is named (read or written) by an
+earlier op": the def-before-use condition under which `candsDistinct` holds for *every* op list
+(`P3R.C18.fusionInvariant_of_aDefined`). Elementary (no reference to the fusion pass), decidable;
+the driver evaluates it per program next to `fusionInvariant` (`c18inv`). -/
+def aDefined (inputs : List Nat) (ops : List (Op K)) : Bool :=
+  ops.zipIdx.all fun (p : Op K × Nat) =>
+    match p.1 with
+    | .alu .add a _ none _ _ =>
+      inputs.contains a ||
+        (ops.take p.2).any fun op => (opReads op).contains a || (opWrites op).contains a
+    | _ => true
+
 end
 
 /-! ### `build_with_public_mapping` -/
@@ -335,6 +365,10 @@ def optimizeOrd (ord : FuseOrders K) (ops : Array (Op K)) (privRows : List Nat) 
 def fusionInvariantOf (l : Lowered K) : Bool :=
   fusionInvariant (dedup l.ops).1 (l.privRows.toList.map (resolve (dedup l.ops).2))
 
+/-- `aDefined` at the op list and input set the optimiser hands to the fusion pass. -/
+def aDefinedOf (l : Lowered K) : Bool :=
+  aDefined (l.privRows.toList.map (resolve (dedup l.ops).2)) (dedup l.ops).1.toList
+
 /-- `expr_to_widx` of the built circuit, in the canonical order (the theorems show every order gives it). -/
 def finalE2w (l : Lowered K) : Array (Option Nat) :=
   e2wCollect l.e2w.size (resolve (dedup l.ops).2) (e2wPairs l.e2w)
@@ -358,6 +392,18 @@ def compileOrd (o : Orders K) (b : BState K) (genKeys : List Nat) (tags : List (
                       e2w := e2w, rewrite := rw },
             genOrder := genOrder (o.genKeys genKeys),
             tagToWitness := tw }
+
+/-- The same build with no ordering argument: the fixed-order `P3R.compile` (what C02/C03/C09 verify and
+the harness compares with the real build), the tag loop in list order, the generator ids sorted.
+`P3R.C18.compileOrd_eq_fixed`: every valid record of hash orders gives exactly this. -/
+def compileFixed (b : BState K) (genKeys : List Nat) (tags : List (Nat × Nat)) :
+    Except BuildErr (CircuitX K) :=
+  match compile b with
+  | .error e => .error (.lower e)
+  | .ok c =>
+    match (tagTransfer (fun e => c.e2w.getD e none) [] tags).map canonMap with
+    | .error te => .error (.missingTag te.1 te.2)
+    | .ok tw => .ok { core := c, genOrder := genOrder genKeys, tagToWitness := tw }
 
 end
 
